@@ -482,6 +482,25 @@ def big_token_cases():
     return out
 
 
+def order_terminal_cases():
+    """a bond ORDER written on the left terminal of a stochastic object whose prefix / connector is written without its own descriptor: the
+    descriptor the library inserts on the prefix must prescribe that order"""
+    texts = ["C{=[$] =[$]CC=[$]; =[$]O []}|uniform(50, 60)|",
+             "N{=[$] =[$]CC[$], [$]CC=[$]; =[$]O, [$]F []}|uniform(60, 160)|",
+             "CC{#[$] #[$]C[$], [$]CC#[$]; #[$]N, [$]Cl []}|uniform(40, 120)|",
+             "C{[$] [$]CC[$] [$]}|uniform(30, 60)|N{=[$] =[$]CC=[$]; =[$]O []}|uniform(50, 90)|",
+             "O{=[<] =[<]CC=[>], =[<]C(C)C=[>]; =[>]S []}|gauss(120, 30)|"]
+    out = []
+    for t in texts:
+        try:
+            c = parse_case(t, "orderterminal")
+        except Exception:
+            c = None
+        if c is not None:
+            out.append(c)
+    return out
+
+
 def corpus_cases():
     from corpus import notation_strings
     out = []
